@@ -27,6 +27,13 @@ STORES = {
 }
 
 PROPS = {
+    "C03": {
+        "custom": "c03driver",
+        "tiers": tiers(2000, 60000, quick_budget=40),
+        "rule": "rapid-generated scenario: 0-4 initial subscriptions, 2-5 client tasks x 1-5 operations drawn from every public call except the setters (publish to sync/async/once/sequential/filtered handlers, subscribe, unsubscribe, clear, clearAll, has/count, Wait, Shutdown(ctx), Replay, ReplayWithUpcast, SubscribeWithReplay, store reads, RegisterUpcastFunc, ClearUpcasts(ForType), Materializer Apply/Replay/LastOffset/RegisterCollection, collection Get/All) on three event types out of 40, a MemoryStore-backed bus in half the runs; handlers, filters and before/after hooks re-enter the bus (publish/subscribe/unsubscribe/clear/count/has on a leaf type), + choice tape. Each scenario set is run twice: normal build (deadlock verdict of the scheduler) and -race build (Go race detector with the simulator's hand-offs hidden and sync happens-before edges modelled by the shims). Non-trivial: >=1 decision point with >=2 ready tasks; distinct = (scenario shape, schedule trace hash).",
+        "components": dict(REAL_BUS, **{"race detection": "real Go race detector (ThreadSanitizer) in a -race build of the instrumented code; happens-before edges of Mutex/RWMutex/WaitGroup/Once/atomics supplied by simshim/simsync annotations, scheduler hand-offs excluded with runtime.RaceDisable"}),
+        "assumptions": COMMON_ASSUME + ["a synchronous Sequential handler never publishes and handlers never call Wait/Shutdown (no implementation honouring Sequential could avoid those deadlocks)", "SQLite and durable-streams internals are not instrumented: races inside them are out of reach; MemoryStore, bus, upcast registry and materializer are covered", "the race engine reports two accesses that ebu's own synchronisation leaves unordered; accesses inside one decision-point-free region are never torn"],
+    },
     "C13": {
         "tiers": tiers(2000, 60000, quick_budget=40),
         "rule": "rapid-generated scenario: 1-2 publisher tasks x 1-8 publishes through a fault-injecting decorator over MemoryStore or SQLite; fault plan addresses the k-th Append: fail before effect, lose the acknowledgement after effect, block until the persistence timeout (5/50 ms simulated) expires; unencodable events (channel, func, NaN) at drawn positions; with/without error handler (optionally re-entrant: it publishes an alert on the same bus), optional Observability, 1-3 handlers of mixed kinds, + choice tape. Non-trivial: at least one persistence failure happened; distinct = (scenario shape, schedule trace hash, history hash).",
